@@ -8,7 +8,10 @@ if ! git diff --quiet; then echo "repo has uncommitted changes"; exit 2; fi
 if ! git apply --check "$P" 2>/dev/null; then echo "SKIP (does not apply): $P"; exit 0; fi
 git apply "$P"
 for ID in "$@"; do
+  # evidence files belong to runs on the unchanged tree: keep them out of the mutant run's way
+  cp -f /verif/evidence/$ID.json /verif/out/evidence.$ID.keep 2>/dev/null
   out=$(/verif/check "$ID" quick 2>&1); rc=$?
+  mv -f /verif/out/evidence.$ID.keep /verif/evidence/$ID.json 2>/dev/null
   v=$(echo "$out" | grep -m1 "^VIOLATION" | cut -c1-60)
   c=$(echo "$out" | grep -m1 "clause=" | sed 's/^ *//' | cut -c1-110)
   case $rc in 1) r=CAUGHT;; 0) r=MISSED;; *) r="OTHER($rc)";; esac
